@@ -168,7 +168,7 @@ class ThreeBodyJastrow:
             mask = np.ones(len(epos.configs), dtype=bool)
         not_e = np.arange(self._nelec) != e
 
-        configs_mask = configs.mask(mask)
+        configs_mask = self._configscurrent.mask(mask)
         eind, mind = np.ix_(not_e, mask)
         if saved_values is None:
             P_ie_new, ae = self.single_e_partial(
